@@ -44,7 +44,7 @@ package telemetry
 //@   at call child#1: assert $childvar == "1"
 //@   ensures $childvar != "" ==> $spawned == old($spawned) && $fsops == old($fsops)
 //@   ensures $spawned <= old($spawned)+1
-//@   modifies heap
+//@   modifies heap, $childvar, $spawned, $fsops, $minsize, $token, $created, $age, $nenv, $marked, $now, $weekend, $ledger, $lost
 
 //@ contract MaybeChild
 //@   requires $rd == 0 && $lk == 0
@@ -52,7 +52,7 @@ package telemetry
 //@   at call Getenv#1: after ghost $childvar = result
 //@   at call child#1: assert $childvar == "1"
 //@   ensures $spawned == old($spawned) && $fsops == old($fsops)
-//@   modifies heap
+//@   modifies heap, $childvar, $fsops, $minsize, $marked, $now, $weekend, $ledger, $lost
 
 // parent: with mode off nothing is started and nothing is written; otherwise
 // a child is started at most once, and only if crash reporting was requested
@@ -66,7 +66,7 @@ package telemetry
 //@   ensures $mode == "off" ==> $fsops == old($fsops) && $spawned == old($spawned)
 //@   ensures $spawned != old($spawned) ==> config.ReportCrashes || (config.Upload && $token)
 //@   ensures $spawned <= old($spawned)+1
-//@   modifies heap
+//@   modifies heap, $spawned, $fsops, $minsize, $token, $created, $age, $nenv, $now, $weekend, $ledger, $lost
 
 // startChild: the new process carries GO_TELEMETRY_CHILD=1 as the entry after
 // the copied environment, and GO_TELEMETRY_CHILD_UPLOAD=1 after it exactly
@@ -76,7 +76,7 @@ package telemetry
 //@   at call Environ#1: after ghost $nenv = len(result)
 //@   at call Start#1: assert len(cmd.Env) == ite(upload, $nenv+2, $nenv+1) && cmd.Env[$nenv] == "GO_TELEMETRY_CHILD=1" && (upload ==> cmd.Env[$nenv+1] == "GO_TELEMETRY_CHILD_UPLOAD=1")
 //@   ensures $spawned <= old($spawned)+1
-//@   modifies heap
+//@   modifies heap, $spawned, $fsops, $minsize, $nenv
 
 // child: the marker is rewritten to "2" before the counter file is opened and
 // before the crash monitor or the uploader (which run go commands) start;
@@ -92,7 +92,7 @@ package telemetry
 //@   at call Go#2: assert $marked
 //@   at call Exit#1: assert $spawned == old($spawned)
 //@   ensures false
-//@   modifies heap
+//@   modifies heap, $fsops, $minsize, $marked, $now, $weekend, $ledger, $lost
 
 // acquireUploadToken: the token is granted only to the process whose
 // exclusive create of the token file succeeded; an existing token is removed
@@ -104,4 +104,4 @@ package telemetry
 //@   at call OpenFile#1: after ghost $created = result1 == nil
 //@   ensures result ==> $created
 //@   ensures telemetry.Default.LocalDir() == "" ==> !result && $fsops == old($fsops)
-//@   modifies $fsops, $created, $age
+//@   modifies $fsops, $minsize, $created, $age
